@@ -49,7 +49,7 @@ def shape(t):
 
 def expected_sig(m):
     ps = []
-    if m["kind"] in ("R", "PR") and m["ret"] is not None and m["ret"].lifetime:
+    if m["kind"] in ("R", "PR", "CL") and m["ret"] is not None and m["ret"].lifetime:
         ps.append(("ptr",))
     if m["kind"] == "CB":
         # DiplomatCallback { data, run_callback, destructor } by value; the method itself returns nothing
